@@ -111,10 +111,16 @@ def cursorOp (hidden : Bool) : TermOp := if hidden then .decrst 25 else .decset 
 
 def clearScreen (r : RState) : RState × List TermOp := (r.repaint, [.ed2, .home])
 
+/-- `enterAltScreen()`. Lines printed since the last frame belong above the view on the MAIN screen
+and the alt screen never shows them: if any are queued the main screen is brought up to date first
+(one ordinary `flush`), then the screen is switched. (Before fix `dcf56fa` the queue was
+simply carried into the alt screen, and a program that ended there lost the lines.) -/
 def enterAlt (r : RState) : RState × List TermOp :=
   if r.altActive then (r, [])
-  else (({ r with altActive := true, altLinesRendered := 0 } : RState).repaint,
-        [.decset 1049, .ed2, .home, cursorOp r.cursorHidden])
+  else
+    let p := if r.queued.isEmpty then (r, []) else flush r
+    (({ p.1 with altActive := true, altLinesRendered := 0 } : RState).repaint,
+      p.2 ++ [.decset 1049, .ed2, .home, cursorOp p.1.cursorHidden])
 
 def exitAlt (r : RState) : RState × List TermOp :=
   if !r.altActive then (r, [])
